@@ -65,12 +65,17 @@ def apply (content : List Nat) (n : Nat) : Op → St → St
 def runOps (content : List Nat) (ops : List Op) (s : St) : St :=
   ops.foldl (fun s op => apply content content.length op s) s
 
+/-- a step that is interrupted (crash) or fails: only a write can have a partial effect (`n` bytes) -/
+def tornApply (content : List Nat) (n : Nat) : Op → St → St
+  | .write t, s => apply content n (.write t) s
+  | _, s => s
+
 /-- the process dies after `k` complete steps; if step `k` is a write, `j` bytes of it happened -/
 def runCrash (content : List Nat) (steps : List Step) (k j : Nat) (s : St) : St :=
   let s1 := runOps content ((steps.take k).map (·.op)) s
   match steps[k]? with
-  | some ⟨.write t, _⟩ => apply content (min j content.length) (.write t) s1
-  | _ => s1
+  | some st => tornApply content (min j content.length) st.op s1
+  | none => s1
 
 def guardHolds (closed failed : Bool) : Guard → Bool
   | .notClosed => !closed
@@ -103,9 +108,7 @@ def runFail (content : List Nat) (steps : List Step) (cl : List Cleanup) (i j : 
   match steps[i]? with
   | none => runOK content steps cl s
   | some st =>
-    let s2 := match st.op with
-      | .write t => apply content (min j content.length) (.write t) s1
-      | _ => s1
+    let s2 := tornApply content (min j content.length) st.op s1
     if st.checked then
       { st := runCleanup content cl (closedAfter pre) true s2, reported := true }
     else
@@ -113,7 +116,8 @@ def runFail (content : List Nat) (steps : List Step) (cl : List Cleanup) (i j : 
       { st := runCleanup content cl (closedAfter (pre ++ rest)) false (runOps content rest s2),
         reported := false }
 
-/-! ## Symbolic version: finite, so the whole behaviour of a step list can be decided by evaluation -/
+/-! ## Symbolic version: finite, so the whole behaviour of a step list can be decided by evaluation.
+    The run is parametrised by whether a previous destination file exists. -/
 
 inductive Cont where
   | empty | part | full
@@ -121,8 +125,8 @@ deriving DecidableEq, Repr
 
 inductive SFile where
   | absent
-  | old                          -- whatever was at the destination before
-  | new (c : Cont) (mode : Option Nat)    -- `none` mode: the mode of the previous destination (or 0644)
+  | old (mode : Option Nat)               -- the previous bytes; `some m`: its mode was changed to `m`
+  | new (c : Cont) (mode : Option Nat)    -- new bytes; mode `none`: the previous file's mode
 deriving DecidableEq, Repr
 
 structure SSt where
@@ -137,16 +141,19 @@ def sApply (c : Cont) : Op → SSt → SSt
       | .new _ m => .new c m
       | f => f }
   | .write .final, s => { s with dest := match s.dest with
-      | .new _ m => .new c m
-      | _ => .new c none }
+      | .absent => .new c (some 0o644)
+      | .old m => .new c m
+      | .new _ m => .new c m }
   | .sync, s => s
   | .closeF, s => s
   | .chmod .tmp m, s => { s with tmp := match s.tmp with
       | .new c' _ => .new c' (some m)
-      | f => f }
+      | .old _ => .old (some m)
+      | .absent => .absent }
   | .chmod .final m, s => { s with dest := match s.dest with
       | .new c' _ => .new c' (some m)
-      | f => f }
+      | .old _ => .old (some m)
+      | .absent => .absent }
   | .rename, s => match s.tmp with
       | .absent => s
       | f => { dest := f, tmp := .absent }
@@ -156,11 +163,17 @@ def sApply (c : Cont) : Op → SSt → SSt
 
 def sRunOps (ops : List Op) (s : SSt) : SSt := ops.foldl (fun s op => sApply .full op s) s
 
+def sTornApply (c : Cont) : Op → SSt → SSt
+  | .write t, s => sApply c (.write t) s
+  | _, s => s
+
+def contOf (partialWrite : Bool) : Cont := if partialWrite then .part else .full
+
 def sRunCrash (steps : List Step) (k : Nat) (partialWrite : Bool) (s : SSt) : SSt :=
   let s1 := sRunOps ((steps.take k).map (·.op)) s
   match steps[k]? with
-  | some ⟨.write t, _⟩ => sApply (if partialWrite then .part else .full) (.write t) s1
-  | _ => s1
+  | some st => sTornApply (contOf partialWrite) st.op s1
+  | none => s1
 
 def sRunCleanup (cl : List Cleanup) (closed failed : Bool) (s : SSt) : SSt :=
   cl.foldl (fun s c => if guardHolds closed failed c.guard then sApply .full c.op s else s) s
@@ -170,60 +183,70 @@ structure SOutcome where
   reported : Bool
 deriving DecidableEq, Repr
 
+def sRunOK (steps : List Step) (cl : List Cleanup) (s : SSt) : SOutcome :=
+  let ops := steps.map (·.op)
+  { st := sRunCleanup cl (closedAfter ops) false (sRunOps ops s), reported := false }
+
 def sRunFail (steps : List Step) (cl : List Cleanup) (i : Nat) (partialWrite : Bool) (s : SSt) : SOutcome :=
   let pre := (steps.take i).map (·.op)
   let s1 := sRunOps pre s
   match steps[i]? with
-  | none => { st := sRunCleanup cl (closedAfter (steps.map (·.op))) false (sRunOps (steps.map (·.op)) s), reported := false }
+  | none => sRunOK steps cl s
   | some st =>
-    let s2 := match st.op with
-      | .write t => sApply (if partialWrite then .part else .full) (.write t) s1
-      | _ => s1
+    let s2 := sTornApply (contOf partialWrite) st.op s1
     if st.checked then
       { st := sRunCleanup cl (closedAfter pre) true s2, reported := true }
     else
       let rest := (steps.drop (i + 1)).map (·.op)
       { st := sRunCleanup cl (closedAfter (pre ++ rest)) false (sRunOps rest s2), reported := false }
 
-def sInit : SSt := { dest := .old, tmp := .absent }
+/-- initial symbolic state; `ex`: a previous destination file exists -/
+def sInit (ex : Bool) : SSt := { dest := if ex then .old none else .absent, tmp := .absent }
+
+def isUnknownOp : Op → Bool
+  | .unknown _ => true
+  | _ => false
 
 def hasUnknown (steps : List Step) (cl : List Cleanup) : Bool :=
-  steps.any (fun s => match s.op with | .unknown _ => true | _ => false) ||
-  cl.any (fun c => (match c.op with | .unknown _ => true | _ => false) || c.guard == .unknown)
+  steps.any (fun s => isUnknownOp s.op) || cl.any (fun c => isUnknownOp c.op || c.guard == .unknown)
 
-/-- decidable: at every crash point the destination is symbolically the old file or the complete new
-    content with mode `mode` -/
-def crashSafe (steps : List Step) (cl : List Cleanup) (mode : Nat) : Bool :=
-  !hasUnknown steps cl &&
-  (List.range (steps.length + 1)).all (fun k => [true, false].all (fun p =>
-    let d := (sRunCrash steps k p sInit).dest
-    d == .old || d == .new .full (some mode)))
+def crashPoints (steps : List Step) : List (Nat × Bool) :=
+  (List.range (steps.length + 1)).flatMap (fun k => [(k, false), (k, true)])
 
-/-- decidable: a complete run installs the new content with mode `mode` and leaves no temp file -/
+def faultPoints (steps : List Step) : List (Nat × Bool) :=
+  (List.range steps.length).flatMap (fun k => [(k, false), (k, true)])
+
+def crashOKAt (steps : List Step) (mode : Nat) (ex : Bool) (kp : Nat × Bool) : Bool :=
+  let d := (sRunCrash steps kp.1 kp.2 (sInit ex)).dest
+  d == (sInit ex).dest || d == .new .full (some mode)
+
+/-- decidable: at every crash point the destination is symbolically the previous file (or still absent)
+    or the complete new content with mode `mode` -/
+def crashSafe (steps : List Step) (mode : Nat) : Bool :=
+  [true, false].all (fun ex => (crashPoints steps).all (crashOKAt steps mode ex))
+
+/-- decidable: a complete run reports success, installs the new content with mode `mode`, leaves no temp file -/
 def completes (steps : List Step) (cl : List Cleanup) (mode : Nat) : Bool :=
-  !hasUnknown steps cl &&
-  (let r := sRunCleanup cl (closedAfter (steps.map (·.op))) false (sRunOps (steps.map (·.op)) sInit)
-   r.dest == .new .full (some mode) && r.tmp == .absent) &&
-  (let r := sRunCleanup cl (closedAfter (steps.map (·.op))) false (sRunOps (steps.map (·.op)) { dest := .absent, tmp := .absent })
-   r.dest == .new .full (some mode) && r.tmp == .absent)
+  [true, false].all (fun ex =>
+    let r := sRunOK steps cl (sInit ex)
+    r.st.dest == .new .full (some mode) && r.st.tmp == .absent)
+
+def faultOKAt (steps : List Step) (cl : List Cleanup) (ex : Bool) (ip : Nat × Bool) : Bool :=
+  let r := sRunFail steps cl ip.1 ip.2 (sInit ex)
+  r.reported && r.st.dest == (sInit ex).dest && r.st.tmp == .absent
 
 /-- decidable: a single failing step is reported, the previous destination is intact, no temp file is left -/
 def faultSafe (steps : List Step) (cl : List Cleanup) : Bool :=
-  !hasUnknown steps cl &&
-  (List.range steps.length).all (fun i => [true, false].all (fun p =>
-    let r := sRunFail steps cl i p sInit
-    r.reported && r.st.dest == .old && r.st.tmp == .absent))
+  [true, false].all (fun ex => (faultPoints steps).all (faultOKAt steps cl ex))
 
-/-- first crash point (k, partial?) at which the destination is neither old nor complete-new: the
-    witness the failure path replays on the real binary -/
-def crashWitness (steps : List Step) (mode : Nat) : Option (Nat × Bool) :=
-  ((List.range (steps.length + 1)).flatMap (fun k => [(k, false), (k, true)])).find? (fun kp =>
-    let d := (sRunCrash steps kp.1 kp.2 sInit).dest
-    !(d == .old || d == .new .full (some mode)))
+/-- first crash point at which the destination is neither previous nor complete-new: the witness the
+    failure path replays on the real binary (`ex`, step index, torn write?) -/
+def crashWitness (steps : List Step) (mode : Nat) : Option (Bool × Nat × Bool) :=
+  ([true, false].flatMap (fun ex => (crashPoints steps).map (fun kp => (ex, kp.1, kp.2)))).find?
+    (fun w => !crashOKAt steps mode w.1 (w.2.1, w.2.2))
 
-def faultWitness (steps : List Step) (cl : List Cleanup) : Option (Nat × Bool) :=
-  ((List.range steps.length).flatMap (fun i => [(i, false), (i, true)])).find? (fun ip =>
-    let r := sRunFail steps cl ip.1 ip.2 sInit
-    !(r.reported && r.st.dest == .old && r.st.tmp == .absent))
+def faultWitness (steps : List Step) (cl : List Cleanup) : Option (Bool × Nat × Bool) :=
+  ([true, false].flatMap (fun ex => (faultPoints steps).map (fun kp => (ex, kp.1, kp.2)))).find?
+    (fun w => !faultOKAt steps cl w.1 (w.2.1, w.2.2))
 
 end Inst
